@@ -375,8 +375,12 @@ func classify(in Input) (kind, fin string, ret bool) {
 	switch in.C01.Fin.K {
 	case "find", "first", "take", "last", "count", "pluck":
 		return "OpQuery", fin, false
-	case "update", "updates_map", "updates_struct":
+	case "update", "updates_map", "updates_struct", "update_column", "update_columns":
 		return "OpUpdate", fin, false
+	case "save_struct": // the key exists in the seed data: the UPDATE finds its row
+		return "OpUpdate", "FSave", false
+	case "save_slice":
+		return "OpCreate", fin, true
 	case "delete":
 		return "OpDelete", fin, false
 	case "create_struct", "create_slice", "create_map", "create_maps":
@@ -552,8 +556,8 @@ func main() {
 			c := g.Input()
 			c.NoExec = !g.Exec()
 			switch c.Fin.K {
-			case "update", "updates_map", "updates_struct", "delete":
-				if r.Chance(1, 6) && len(c.Fin.L) == 0 {
+			case "update", "updates_map", "updates_struct", "update_column", "update_columns", "delete":
+				if r.Chance(1, 6) && (c.Fin.K != "delete" || len(c.Fin.L) == 0) {
 					c.Chain = nil // no condition: the real run refuses (ErrMissingWhereClause)
 				}
 			}
